@@ -2,10 +2,29 @@
 import numpy as np
 import common
 from common import show_floats, show_ints, fbits
-import tprog, gen_dag, gen_ops
+import tprog, gen_dag, gen_ops, views
 
 tprog.ENTRIES = True        # function / Tensor method / operator / nn layer class
 tprog.SPELLINGS = True      # int-or-tuple arguments in every documented spelling
+tprog.LAYOUTS = True        # leaves are handed over in C / Fortran / strided / negative-stride / offset / transposed / broadcast layouts
+tprog.LAYOUT_NAMES = tprog.LAYOUT_NAMES + ['F', 'broadcast']
+_relayout0 = tprog.relayout
+
+
+def _relayout(a, layout):
+    """tprog.relayout plus `broadcast`: an array that is constant along an axis arrives as the zero-stride (read-only) view
+    np.broadcast_to makes of one slice (anything else arrives Fortran-ordered instead)"""
+    if layout not in ('broadcast', 'F', 'offset'): return _relayout0(a, layout)
+    for ax in range(a.ndim):
+        if a.shape[ax] > 1:
+            first = np.take(a, [0], axis=ax)
+            if np.array_equal(np.broadcast_to(first, a.shape), a, equal_nan=True):
+                return np.broadcast_to(np.ascontiguousarray(first), a.shape)
+    return _relayout0(a, 'F' if layout == 'broadcast' else layout)
+
+
+tprog.relayout = _relayout
+VIEW_KINDS = views.VIEW_KINDS
 PROP = 'C14'
 LEAN_TARGETS = ['Props.C14']
 REQUIRED_THEOREMS = ['Props.C14.linear_is_addmm', 'Props.C14.cross_entropy_is_nll_log_softmax', 'Props.C14.mean_is_sum_div_count',
@@ -30,17 +49,26 @@ RULE = ('one program per identity and operand set, both sides built over the sam
         'the tolerance 1e-6. Module level (seq, neuronmod): the real nn.Sequential / nn.Neuron / nn.Linear objects (members repeated, '
         'nested, Flatten / BatchNorm1d / Dropout members, ~8 % malformed feature counts) against the model\'s sequentialForward / '
         'Linear.forward / Neuron.forward run by the driver (`mf` lines): outputs, rejections, batch-norm state and draws consumed. '
+        'NON-CONTIGUOUS OPERANDS: in two thirds of the operand sets (and once per identity and view kind) the operands are interior tensors '
+        'whose buffer is axis-permuted / strided: transpose / movedim views, elementwise results of those, stepped and reversed slices, '
+        'slices of transposed tensors (harness/views.py); leaves arrive in C / Fortran / strided / reversed / offset / transposed / zero-stride '
+        'broadcast layouts; flatten = reshape over (view kind) x (whole tensor / prefix / suffix / any range). '
         'Non-trivial: every case (each has a differentiable leaf and > 1 element).')
 EXHAUSTIVE = {'quick': False, 'thorough': False}
 ASSUMPTIONS = ['float64; identities that pass through log(x + 1e-12) hold up to that guard (tolerance 1e-6 on moderate values)']
-TRUSTED_BASE = ['harness/tprog.py']
+TRUSTED_BASE = ['harness/tprog.py', 'harness/views.py']
 
 
 class B:
     """program builder.  `mask` decides which of the operand leaves require grad: None = all of them; otherwise a draw per leaf
     (`rg=None`), so that constants and tensors that require grad meet in every position of every identity (a leaf created with an
     explicit `rg` keeps it)"""
-    def __init__(self, rng=None, mask=None):
+    def __init__(self, rng=None, mask=None, views=0.0, kinds=None):
+        """`views`: probability that a floating-point operand of rank >= 1 is not the leaf itself but an INTERIOR tensor with the
+        same values whose buffer is not C-contiguous: a transposed / moved-axis view of the leaf (optionally followed by elementwise
+        ops, which keep the permuted layout), a stepped or reversed slice of a larger leaf, or both.  Both sides of the identity
+        consume that tensor; gradients are compared at the leaf behind it."""
+        self.views, self.kinds, self.base, self.viewed = views, kinds or VIEW_KINDS, {}, []
         self.lines, self.n = [], 0
         self.shape = []
         self.leaves = []          # leaves that require grad
@@ -55,15 +83,33 @@ class B:
                 rg = bool(self.mask[len(self.free)]) if len(self.free) < len(self.mask) else True
             else:
                 rg = True if self.mask is None else self.rng.chance(self.mask)
-        self.lines.append(gen_dag.leaf_line(sh, data, rg, dt)); self.shape.append(tuple(sh)); self.n += 1
-        if drawn: self.free.append(self.n - 1)
-        if rg: self.leaves.append(self.n - 1)
-        elif dt in ('f64', 'f32'): self.consts.append(self.n - 1)
-        return self.n - 1
+        sh = tuple(sh)
+        plan = None
+        if self.views and self.rng is not None and dt in ('f64', 'f32') and len(sh) >= 2 and max(sh) > 1 and self.rng.chance(.12):
+            # values constant along one axis: such a leaf arrives as a zero-stride broadcast view (see _relayout) four times out of nine
+            A = np.array(data, dtype=np.float64).reshape(sh)
+            ax = self.rng.pick([k for k, n_ in enumerate(sh) if n_ > 1])
+            data = [float(v) for v in np.broadcast_to(np.take(A, [0], axis=ax), sh).ravel()]
+            self.viewed.append('constant along an axis (broadcast view when the leaf layout says so)')
+        if self.views and self.rng is not None and dt in ('f64', 'f32') and len(sh) >= 1 and self.rng.chance(self.views):
+            plan = views.view_plan(self.rng, sh, data, self.kinds)
+        lsh, ldata = (plan[0], plan[1]) if plan else (sh, data)
+        self.lines.append(gen_dag.leaf_line(lsh, ldata, rg, dt)); self.shape.append(tuple(lsh)); self.n += 1
+        lid = self.n - 1
+        if drawn: self.free.append(lid)
+        if rg: self.leaves.append(lid)
+        elif dt in ('f64', 'f32'): self.consts.append(lid)
+        if not plan: return lid
+        cur = lid
+        for name, args in plan[2]:
+            cur = self.op(name, [cur], *args)
+        self.base[cur] = lid; self.viewed.append(plan[3])
+        return cur
 
     def require(self, k):
         """leaf k requires grad after all (an identity whose two sides would otherwise differ in the flag of the root, or a
         program without any differentiable operand)"""
+        k = self.base.get(k, k)
         if k in self.leaves: return
         t = self.lines[k].split(' ')
         assert t[1] == 'leaf'
@@ -223,14 +269,17 @@ def finish(b, lhs, rhs, rng, tol=1e-9):
                 lines.append(f't grad {lf}'); idx.append(len(lines) - 1)
             tot[side] = idx
         pairs += list(zip(tot['l'], tot['r']))
-    return {'lines': lines, 'pairs': pairs, 'tol': tol, 'mask': b.mask_str()}
+    return {'lines': lines, 'pairs': pairs, 'tol': tol, 'mask': b.mask_str(), 'views': list(b.viewed)}
 
 
-def gen_identity(rng, which, big=False, mask=None):
+_BIG_BUDGET = [1]
+
+
+def gen_identity(rng, which, big=False, mask=None, views=0.0, kinds=None, force=None, nobig=False):
     """`mask`: None = every operand requires grad; p = every operand leaf requires grad with probability p (at least one does);
     a list = the flags of the operand leaves in order (stack / unbind then take that many operands, conv2d a bias when there are three)"""
     nmask = len(mask) if isinstance(mask, (list, tuple)) else None
-    b = B(rng, None if which in ('seq', 'neuronmod') else mask)
+    b = B(rng, None if which in ('seq', 'neuronmod') else mask, 0.0 if which in ('seq', 'neuronmod') else views, kinds)
     V = lambda sh, kind='any': gen_ops.vals(rng, sh, kind)
     if which == 'ce':
         n, c = rng.randint(1, 4), rng.randint(2, 4)
@@ -306,7 +355,10 @@ def gen_identity(rng, which, big=False, mask=None):
             if ph <= kh // 2 and pw <= kw // 2: break
         if rng.chance(.4): kw, sw, pw, dw = kh, sh_, min(ph, pw), dh if W + 2 * min(ph, pw) >= dh * (kh - 1) + 1 else dw      # square arguments: the documented bare-int spelling becomes possible
         if pw > kw // 2 or W + 2 * pw < dw * (kw - 1) + 1: kw, sw, pw, dw = 1, 1, 0, 1
-        if big or rng.chance(.1):        # a window of more than 256 elements
+        bigwin = big
+        if not big and rng.chance(.1) and not nobig and _BIG_BUDGET[0] > 0:      # (slow in the model: a budget per run, none in the per-view-kind sweep)
+            bigwin = True; _BIG_BUDGET[0] -= 1
+        if bigwin:        # a window of more than 256 elements
             n, c = 1, 1
             H, W = rng.randint(17, 20), rng.randint(17, 20); kh, kw = rng.pick([(17, 17), (16, 17), (H, W)])
             sh_, sw, ph, pw, dh, dw = rng.randint(1, 3), rng.randint(1, 3), 0, 0, 1, 1
@@ -389,8 +441,13 @@ def gen_identity(rng, which, big=False, mask=None):
         return finish(b, l, r, rng)
     if which == 'flatten':
         s = gen_ops.rshape(rng, 1, 4)
+        if force or rng.chance(.5): s = tuple(rng.randint(2, 3) for _ in range(rng.randint(2, 4)))      # several axes of extent > 1: a permuted buffer differs from the C-ordered one
         s0 = rng.randrange(len(s)); e0 = rng.randrange(s0, len(s))
-        x = b.leaf(s, V(s))
+        rk = force or rng.pick(['full', 'full', 'left', 'right', 'any', 'any'])      # the whole tensor, a prefix, a suffix, any range
+        if rk == 'full': s0, e0 = 0, len(s) - 1
+        elif rk == 'left': s0, e0 = 0, rng.randrange(0, len(s))
+        elif rk == 'right': e0 = len(s) - 1
+        x = b.leaf(s, V(s, 'distinct'))
         l = b.op('flatten', [x], s0 if rng.chance(.5) else s0 - len(s), e0 if rng.chance(.5) else e0 - len(s))
         tgt = s[:s0] + (int(np.prod(s[s0:e0 + 1])),) + s[e0 + 1:]
         r = b.op('reshape', [x], show_ints(tgt))
@@ -538,12 +595,15 @@ IDS = ['ce', 'bcel', 'logsoftmax', 'linear', 'neuron', 'addmm', 'conv2d', 'maxpo
 def cases(rng, tier):
     out = []
     reps = 8 if tier == 'quick' else 300
+    _BIG_BUDGET[0] = 1 if tier == 'quick' else 10 ** 6      # randomly drawn > 256-element pooling windows (next to the two forced ones)
     for w in IDS:
         for _ in range(reps * (3 if w in ('ce', 'logsoftmax', 'bcel', 'seq', 'neuronmod') else 1)):      # the numerically delicate identities and the module programs get more operand sets
             # which operands require grad: all of them (a third of the operand sets), or a draw per operand — constants and
             # differentiable tensors in every position of every identity with several operands
             mask = None if _ % 3 == 0 else rng.pick([.5, .5, .3, .7])
-            c = gen_identity(rng, w, big=True) if (w in ('maxpool', 'avgpool') and _ == 0) else gen_identity(rng, w, mask=mask)
+            # operands that are interior tensors with a non-contiguous / axis-permuted buffer (two thirds of the operand sets)
+            views = 0.0 if _ % 3 == 1 else rng.pick([.5, .5, 1.0])
+            c = gen_identity(rng, w, big=True) if (w in ('maxpool', 'avgpool') and _ == 0) else gen_identity(rng, w, mask=mask, views=views)
             c['id'] = w
             c['desc'] = w + ': ' + ' ; '.join(c['lines'])[:500]
             out.append(c)
@@ -557,6 +617,21 @@ def cases(rng, tier):
                 c = gen_identity(rng, w, mask=list(flags))
                 c['id'] = w; c['subset'] = True
                 c['desc'] = w + ' (operands requiring grad: ' + c['mask'] + '): ' + ' ; '.join(c['lines'])[:500]
+                out.append(c)
+    # EVERY identity with all its operands behind each kind of non-contiguous view; flatten = reshape additionally over
+    # (view kind) x (whole tensor / prefix / suffix) — a fast path for one range and one memory layout shows up here
+    for w in IDS:
+        if w in ('seq', 'neuronmod'): continue
+        for kind in sorted(set(VIEW_KINDS)):
+            for _ in range(1 if tier == 'quick' else 10):
+                c = gen_identity(rng, w, views=1.0, kinds=[kind], nobig=True)
+                c['id'] = w; c['desc'] = w + f' (operands behind {kind} views): ' + ' ; '.join(c['lines'])[:500]
+                out.append(c)
+    for kind in sorted(set(VIEW_KINDS)) + [None]:
+        for rk in ('full', 'left', 'right'):
+            for _ in range(1 if tier == 'quick' else 10):
+                c = gen_identity(rng, 'flatten', views=1.0 if kind else 0.0, kinds=[kind] if kind else None, force=rk)
+                c['id'] = 'flatten'; c['desc'] = f'flatten {rk} range, operand behind a {kind} view: ' + ' ; '.join(c['lines'])[:500]
                 out.append(c)
     return out
 
@@ -659,6 +734,8 @@ def distribution(cases):
     d = {}
     for c in cases:
         d[c['id']] = d.get(c['id'], 0) + 1
+        for v in c.get('views', []): d[f'operand behind a non-contiguous view: {v}'] = d.get(f'operand behind a non-contiguous view: {v}', 0) + 1
+        if c.get('views'): d[f"{c['id']} on non-contiguous operands"] = d.get(f"{c['id']} on non-contiguous operands", 0) + 1
         m = c.get('mask', '')
         if len(m) > 1:          # which operand leaves require grad (g) / are constants (c), in operand order
             k = 'operands requiring grad: ' + ('all' if 'c' not in m else 'mixed, a constant before a differentiable one' if m.find('c') < m.rfind('g') else 'mixed, constants last')
